@@ -226,10 +226,21 @@ type c26AWrite struct {
 	data    []byte
 }
 
-func c26APluginWrites(pkts []proto.Packet) (out []c26AWrite, other []string) {
+// c26APluginWrites: the plugin messages written to a connection. The channel is the
+// one on the wire: the message is encoded by gate for the connection's protocol and
+// direction and the channel string is read back with the reference reader (the
+// struct may carry a legacy name that the encoder maps for 1.13+ connections).
+func c26APluginWrites(pkts []proto.Packet, protocol int, dir proto.Direction) (out []c26AWrite, other []string) {
 	for _, p := range pkts {
 		if pm, ok := p.(*plugin.Message); ok {
-			out = append(out, c26AWrite{pm.Channel, pm.Data})
+			ch := pm.Channel
+			var buf bytes.Buffer
+			if err := pm.Encode(&proto.PacketContext{Direction: dir, Protocol: proto.Protocol(protocol)}, &buf); err == nil {
+				if wire, err := verifkit.NewRefReader(buf.Bytes()).String(); err == nil {
+					ch = wire
+				}
+			}
+			out = append(out, c26AWrite{ch, pm.Data})
 		} else {
 			other = append(other, fmt.Sprintf("%T", p))
 		}
@@ -498,7 +509,7 @@ func c26ARun(c c26ACase) verifkit.Result {
 
 	// clients: plugin messages never; chat messages / disconnects as expected
 	for i := range c.Players {
-		pm, other := c26APluginWrites(clients[i].packets())
+		pm, other := c26APluginWrites(clients[i].packets(), c.Players[i].Proto, proto.ClientBound)
 		if len(pm) > 0 {
 			if c.Sub == "Forward" {
 				return verifkit.Fail(c26AKeyFwdClients, "%s: the forwarded payload was written to the CLIENT connection of %s on channel %q (%d message(s)); it must be delivered to the target server's backend connection once", what, c.Players[i].Name, pm[0].channel, len(pm))
@@ -537,7 +548,7 @@ func c26ARun(c c26ACase) verifkit.Result {
 		if backends[i] == nil {
 			continue
 		}
-		pm, other := c26APluginWrites(backends[i].packets())
+		pm, other := c26APluginWrites(backends[i].packets(), c.Players[i].Proto, proto.ServerBound)
 		if len(other) > 0 {
 			return verifkit.Fail("backend:unexpected-packet", "%s: backend connection of %s received %v", what, c.Players[i].Name, other)
 		}
@@ -548,10 +559,12 @@ func c26ARun(c c26ACase) verifkit.Result {
 		for s := range c.Servers {
 			n := 0
 			var first *c26AWrite
+			firstWant := ""
 			for _, i := range playersOn(s) {
 				n += len(obsBackend[i])
 				if len(obsBackend[i]) > 0 && first == nil {
 					first = &obsBackend[i][0]
+					firstWant = c26AChan(c.Players[i].Proto)
 				}
 			}
 			want := 0
@@ -568,8 +581,8 @@ func c26ARun(c c26ACase) verifkit.Result {
 				return verifkit.Fail(k, "%s: the backend connections of server %q received %d forwarded message(s), reference %d (exactly once per target server that has a player; requester is on server %d)", what, c.Servers[s], n, want, reqServer)
 			}
 			if want == 1 {
-				if first.channel != "BungeeCord" && first.channel != "bungeecord:main" {
-					return verifkit.Fail("forward:channel", "%s: forwarded on channel %q", what, first.channel)
+				if first.channel != firstWant {
+					return verifkit.Fail("forward:channel", "%s: forwarded to server %q on wire channel %q, a backend of that protocol listens on %q", what, c.Servers[s], first.channel, firstWant)
 				}
 				if !bytes.Equal(first.data, payload) {
 					return verifkit.Fail(c26AKeyFraming, "%s: payload delivered to server %q is %x, reference %x", what, c.Servers[s], c26AShort(first.data), c26AShort(payload))
